@@ -7,16 +7,40 @@
     handler function, every delivery. *)
 From WM Require Import Base.Prelude Message.Model Handler.RouterHandle Router.Wiring Router.WiringSpec Router.WiringProofs.
 
-(** What a handler freezes: if handler [n] was added in [pre] and not started in [pre], then after
+(** What a handler freezes (programs without Stop / failing constructors): if handler [n] was added in [pre] and not started in [pre], then after
     [pre ++ Run/RunHandlers :: post] — whatever [post] registers — its snapshot is exactly the
     middleware registrations of [pre] (router-level registrations made AFTER its AddHandler
     included, registrations made after the start excluded), and its decorator lists are those of
     [pre]. *)
-Theorem C09_started_freezes_registrations : forall pre post n h,
+Theorem C09_started_freezes_registrations : forall pre post n h, plain (pre ++ OStart :: post) = true ->
   spec_cfg n pre = Some h -> spec_started n pre = None ->
   find_handler n (exec rinit (pre ++ OStart :: post)) =
   Some (HS h (Some (ST (regs_of pre) (pdecs_of pre) (sdecs_of pre)))).
 Proof. exact started_freezes. Qed.
+
+(** For EVERY program, incl. Handler.Stop, names added again after a Stop, and decorator constructors
+    that return errors (RunHandlers aborts and is called again): *)
+(** registrations are never removed: r.middlewares is the list of ALL registrations of the program in
+    order — a handler added again under a name inherits what was registered for that NAME before *)
+Theorem C09_registrations_never_removed : forall ops, mws (exec rinit ops) = regs_of ops.
+Proof. exact mws_all. Qed.
+(** a started handler is frozen: nothing but its own Stop changes its middleware snapshot or its
+    decorator lists — no registration, no start of others, no failing RunHandlers, no other handler's Stop *)
+Theorem C09_started_frozen : forall st o n h s,
+  find_handler n st = Some (HS h (Some s)) -> o <> OStop n ->
+  find_handler n (step st o) = Some (HS h (Some s)).
+Proof. exact started_frozen. Qed.
+(** a RunHandlers in which a constructor fails starts nobody; one in which none fails gives every
+    waiting handler the middleware list and the decorator lists of that moment *)
+Theorem C09_start_outcome : forall st,
+  (forall d, (first_failing st (rev (pubdecs st)) = Some d \/
+              (first_failing st (rev (pubdecs st)) = None /\ first_failing st (subdecs st) = Some d)) ->
+        handlers (step st OStart) = handlers st)
+  /\ (first_failing st (rev (pubdecs st)) = None -> first_failing st (subdecs st) = None ->
+      handlers (step st OStart) = map (start_one st) (handlers st)).
+Proof. exact start_outcome. Qed.
+Theorem C09_names_unique : forall ops, NoDup (names (exec rinit ops)).
+Proof. exact names_nodup_all. Qed.
 
 (** the wrapping loop, for ALL snapshots and ALL inner handler functions: entries of exactly the
     effective middlewares in registration order, then the inner handler, then the exits mirrored
@@ -45,7 +69,7 @@ Proof. exact c09_chain_membership. Qed.
     they were added, before the publisher *)
 Theorem C09_pub_decorator_order : forall decs p t outs,
   decorate_pub decs p t outs =
-  (map (fun x => EPubDec x t (map fst outs)) decs ++ fst (p t outs), snd (p t outs)).
+  (map (fun x => EPubDec x t (map (fun o => fst (fst o)) outs)) decs ++ fst (p t outs), snd (p t outs)).
 Proof. exact decorate_pub_spec. Qed.
 
 (** subscriber decorators, for ALL lists: an incoming message passes them in the order they were
@@ -59,8 +83,10 @@ Theorem C09_order : forall h s d, c09_proj (dispatch h s d) = spec_order h s d.
 Proof. exact c09_order. Qed.
 
 (** every delivery of every program passes the acceptor that judges implementation observations *)
-Theorem C09_model_accepted : forall ops, c09_monitor ops (run rinit ops) = true.
+Theorem C09_model_accepted : forall ops, plain ops = true -> c09_monitor ops (run rinit ops) = true.
 Proof. exact c09_model_accepted. Qed.
+Theorem C09_model_accepted_all : forall ops, c09_monitor_st ops (run rinit ops) = true.
+Proof. exact c09_model_accepted_st. Qed.
 
 Print Assumptions C09_started_freezes_registrations.
 Print Assumptions C09_build_nests.
@@ -70,6 +96,11 @@ Print Assumptions C09_pub_decorator_order.
 Print Assumptions C09_sub_decorator_order.
 Print Assumptions C09_order.
 Print Assumptions C09_model_accepted.
+Print Assumptions C09_model_accepted_all.
+Print Assumptions C09_registrations_never_removed.
+Print Assumptions C09_started_frozen.
+Print Assumptions C09_start_outcome.
+Print Assumptions C09_names_unique.
 
 (** non-vacuity: router-level 1, handler A (name 10), A's own 2, handler B (name 11), router-level 3
     (after both AddHandler calls: applies to both), B's own 4, decorators, Run, then registrations
@@ -77,19 +108,40 @@ Print Assumptions C09_model_accepted.
 Definition exA := HC 10 1 7 20 (PReal 1 8) 30 1.
 Definition exB := HC 11 1 7 21 (PReal 1 8) 31 2.
 Definition exOps := [OAddMw 1 None; OAddHandler exA; OAddHMw 10 2 None; OAddHandler exB; OAddMw 3 None;
-                     OAddHMw 11 4 None; OAddPubDec 50; OAddSubDec 60; OAddPubDec 51; OAddSubDec 61; OStart;
-                     OAddMw 5 None; OAddHMw 10 6 None; OAddPubDec 52].
+                     OAddHMw 11 4 None; OAddPubDec 50 0; OAddSubDec 60 0; OAddPubDec 51 0; OAddSubDec 61 0; OStart;
+                     OAddMw 5 None; OAddHMw 10 6 None; OAddPubDec 52 0].
 Example C09_witness_A :
-  map (fun p => c09_proj (snd p)) (deliver (exec rinit exOps) (DL 1 20 cx0 (Ret [1%N]) PubAccept)) =
+  map (fun p => c09_proj (snd p)) (deliver (exec rinit exOps) (DL 1 20 cx0 (0%N, false) (Ret [1%N]) PubAccept)) =
   [[OSub 60 (ctx_of exA); OSub 61 (ctx_of exA); OEnter 1; OEnter 2; OEnter 3; OFn; OExit 3; OExit 2; OExit 1; OPubDec 50; OPubDec 51; OPub]].
 Proof. reflexivity. Qed.
 Example C09_witness_B :
-  map (fun p => c09_proj (snd p)) (deliver (exec rinit exOps) (DL 1 21 cx0 Panic PubAccept)) =
+  map (fun p => c09_proj (snd p)) (deliver (exec rinit exOps) (DL 1 21 cx0 (0%N, false) Panic PubAccept)) =
   [[OSub 60 (ctx_of exB); OSub 61 (ctx_of exB); OEnter 1; OEnter 3; OEnter 4; OFn]].
 Proof. reflexivity. Qed.
 (** a handler added and started later picks up the late registrations too *)
 Example C09_witness_late_handler :
   map (fun p => c09_proj (snd p))
-      (deliver (exec rinit (exOps ++ [OAddHandler (HC 12 1 7 22 PNil 0 3); OStart])) (DL 1 22 cx0 (Ret []) PubAccept)) =
+      (deliver (exec rinit (exOps ++ [OAddHandler (HC 12 1 7 22 PNil 0 3); OStart])) (DL 1 22 cx0 (0%N, false) (Ret []) PubAccept)) =
   [[OSub 60 (CX 12 ty_nil 7 22 0); OSub 61 (CX 12 ty_nil 7 22 0); OEnter 1; OEnter 3; OEnter 5; OFn; OExit 5; OExit 3; OExit 1]].
+Proof. reflexivity. Qed.
+
+(** a handler added to the running router; publisher decorator 53's constructor fails once, subscriber
+    decorator 62's fails once: the first two RunHandlers start nobody (the second leaves the publisher
+    decorators applied on the handler's publisher: they act twice afterwards, as coded), the third starts it *)
+Definition exRetry := exOps ++ [OAddPubDec 53 1; OAddSubDec 62 1; OAddHandler (HC 12 1 7 22 (PReal 1 8) 33 3)].
+Example C09_witness_failing_constructors :
+  map (fun ops => map (fun p => c09_proj (snd p)) (deliver (exec rinit ops) (DL 1 22 cx0 (0%N, false) (Ret [1%N]) PubAccept)))
+      [exRetry ++ [OStart]; exRetry ++ [OStart; OStart]; exRetry ++ [OStart; OStart; OStart]] =
+  [[]; [];
+   [[OSub 60 (CX 12 8 7 22 33); OSub 61 (CX 12 8 7 22 33); OSub 62 (CX 12 8 7 22 33);
+     OEnter 1; OEnter 3; OEnter 5; OFn; OExit 5; OExit 3; OExit 1;
+     OPubDec 50; OPubDec 51; OPubDec 52; OPubDec 53; OPubDec 50; OPubDec 51; OPubDec 52; OPubDec 53; OPub]]].
+Proof. reflexivity. Qed.
+(** Stop of A, then a new handler under A's name: it inherits A's middleware 2 and the late 6 *)
+Example C09_witness_stop_and_readd :
+  map (fun p => c09_proj (snd p))
+      (deliver (exec rinit (exOps ++ [OStop 10; OAddHandler (HC 10 1 7 23 PNil 0 4); OAddHMw 10 7 None; OStart]))
+               (DL 1 23 cx0 (0%N, false) (Ret []) PubAccept)) =
+  [[OSub 60 (CX 10 ty_nil 7 23 0); OSub 61 (CX 10 ty_nil 7 23 0);
+    OEnter 1; OEnter 2; OEnter 3; OEnter 5; OEnter 6; OEnter 7; OFn; OExit 7; OExit 6; OExit 5; OExit 3; OExit 2; OExit 1]].
 Proof. reflexivity. Qed.
